@@ -257,7 +257,7 @@ def _extra(_r, cases, obs):
 
 def run(tier, seed):
     core.standard_run(PID, tier, seed, {
-        'model_vos': ['Api/Capacity', 'Gen/Tables'], 'table_sections': ['c19'],
+        'model_vos': ['Api/Capacity', 'Gen/Tables'], 'table_sections': ['c19', 'source_shape'],
         'preamble': PREAMBLE, 'run_fn': RUN_FN, 'in_type': 'partition * list alloc * Z * request',
         'gen_case': lambda rng, i: gen_case(rng, malformed=(i % 10 == 9)),
         'impl_run': _impl,
